@@ -132,6 +132,8 @@ type MXPlan struct {
 	NonASCIIText      bool
 	// Quit421: QUIT is answered with 421 and the connection stays open.
 	Quit421 bool
+	// Perm552: permanent rejections are sent as 552 5.2.2.
+	Perm552 bool
 }
 
 // MXTx is one message the server received content for.
@@ -190,6 +192,11 @@ func (m *ScriptedMX) reply(o Outcome, okCode int, okText string) string {
 		code, enh, text = 451, "4.3.0 ", "scripted temporary rejection"
 	case Perm:
 		code, enh, text = 550, "5.1.1 ", "scripted permanent rejection"
+		if m.Plan.Perm552 {
+			// "exceeded storage allocation": senders are told to treat it
+			// as temporary (RFC 5321 4.5.3.1.10)
+			code, enh, text = 552, "5.2.2 ", "scripted mailbox full"
+		}
 	case Unclass:
 		code, enh, text = 421, "4.4.2 ", "scripted service not available"
 	}
